@@ -42,8 +42,18 @@ Streams (all from chk.rng):
   poke    the primitive operations of the Model's step function are applied to a real engine
           (`_PySignalState.update`, `_PyMemoryState.write`, `commit`, `_PyTimeline.set_waker/advance`,
           `PyClockProcess.run`) and the object graph is compared after every operation, then after reset.
-  plan    `platform.build(..., do_build=False)` twice on iCE40 / ECP5 / Gowin, and again in fresh interpreters
-          under the hash seeds of `diff` (digest, file order, archive bytes); synthetic plans with random
+  plan    `platform.build(..., do_build=False)` of one abstract design 4 (quick) / 6 times in one interpreter on iCE40
+          (IceStorm) / ECP5 (Trellis) / Gowin (Apicula) / Nexus (Oxide) and on a plain TemplatedPlatform that carries the
+          `.sdc` templates of the Gowin / Diamond / Radiant / iCEcube2 toolchains: every time a NEW platform object, the
+          design rebuilt from its seed (new Signal objects) or the same design object again.  The designs constrain
+          internal clock nets with `platform.add_clock_constraint()` from inside `elaborate()` - nets of the top module
+          or the output of a clock generator submodule (named / anonymous, up to three levels deep), signals held by the
+          design object or made by every `elaborate()`, clashing names, a constraint repeated, a constrained signal the
+          design never uses - so that the constraint files print hierarchical net paths (the `hierarchy` template
+          filter, a closure over the platform object).  All plans of a case must have equal files, script, digest
+          and archive bytes and none may raise; the first is compared with the Model / Spec.  The same plans are
+          prepared again in fresh interpreters under the hash seeds of `diff`, one after the other in each (digest, file
+          order, archive bytes; an exception there where the harness got a plan is a violation).  Synthetic plans with random
           file names (nested, unicode, names that `pathlib` normalises to the same path, file/directory
           conflicts, `..`, absolute) added in two orders: `files`, `digest()` (= BLAKE2b of the Model's digest
           input = of the Spec's identity), `archive` to BytesIO twice (bytes equal; members read back =
@@ -734,7 +744,7 @@ def child_main():
         import warnings
         warnings.simplefilter("ignore")
         for s in seeds:
-            for kind in ("ice40", "ecp5", "gowin"):
+            for kind in PLATFORM_KINDS:      # every plan: a new platform object and the design built anew
                 try:
                     plan = make_platform(kind).build(platform_design(s), do_build=False)
                     files = {n: hashlib.sha256(c.encode("utf-8") if isinstance(c, str) else bytes(c)).hexdigest()
@@ -2048,6 +2058,63 @@ def make_platform(kind):
             resources = res
             connectors = []
         return P(toolchain="Trellis")
+    if kind == "nexus":
+        class P(LatticePlatform):       # Oxide: `.pdc` with `create_clock ... [get_nets <path of the net>]`
+            device = "LIFCL-40"
+            package = "BG400"
+            speed = "8"
+            grade = "C"
+            default_clk = "clk"
+            resources = res
+            connectors = []
+        return P(toolchain="Oxide")
+    if kind == "tmpl":
+        # a plain TemplatedPlatform carrying the timing-constraint templates of the vendor toolchains that cannot be
+        # prepared here (they call Yosys for `emit_verilog`): Gowin `.sdc`, Diamond / Radiant / iCEcube2 `.sdc`
+        from amaranth.build import TemplatedPlatform
+        own_sdc = r"""
+            # {{autogenerated}}
+            {% for signal, frequency in platform.iter_signal_clock_constraints() -%}
+                create_clock -name {{signal.name|tcl_quote}} -period {{1000000000/frequency}} [get_nets {{signal|hierarchy("/")|tcl_quote}}]
+            {% endfor %}
+            {% for port, frequency in platform.iter_port_clock_constraints() -%}
+                create_clock -name {{port.name|tcl_quote}} -period {{1000000000/frequency}} [get_ports {{port.name|tcl_quote}}]
+            {% endfor %}
+        """
+
+        def vendor(cls, attr):
+            return getattr(cls, attr, {}).get("{{name}}.sdc", own_sdc)
+
+        class P(TemplatedPlatform):
+            device = "c09"
+            toolchain = "C09"
+            default_clk = "clk"
+            resources = res
+            connectors = []
+            required_tools = ["c09-pnr"]
+            file_templates = {
+                **TemplatedPlatform.build_script_templates,
+                "{{name}}.il": "# {{autogenerated}}\n{{emit_rtlil()}}",
+                "{{name}}.sdc": own_sdc,
+                "{{name}}.gowin.sdc": vendor(GowinPlatform, "_gowin_file_templates"),
+                "{{name}}.diamond.sdc": vendor(LatticePlatform, "_diamond_file_templates"),
+                "{{name}}.radiant.sdc": vendor(LatticePlatform, "_radiant_file_templates"),
+                "{{name}}.icecube2.sdc": vendor(SiliconBluePlatform, "_icecube2_file_templates"),
+                "{{name}}.nets": r"""
+                    {% for signal, frequency in platform.iter_signal_clock_constraints() -%}
+                        net {{signal|hierarchy(".")|ascii_escape}} {{signal|hierarchy("/")}} {{frequency}}
+                    {% endfor %}
+                """,
+                "{{name}}.pins": r"""
+                    {% for port_name, pin_name, attrs in platform.iter_port_constraints_bits() -%}
+                        set_pin {{port_name|ascii_escape}} {{pin_name|tcl_quote}}
+                    {% endfor %}
+                """,
+            }
+            command_templates = [r"""
+                {{invoke_tool("c09-pnr")}} {{get_override("pnr_opts")|options}} {{name}}.il {{name}}.sdc {{name}}.pins
+            """]
+        return P()
 
     class P(GowinPlatform):
         part = "GW1NR-LV9QN88PC6/I5"
@@ -2059,16 +2126,79 @@ def make_platform(kind):
     return P(toolchain="Apicula")
 
 
+PLATFORM_KINDS = ("ice40", "ecp5", "gowin", "nexus", "tmpl")
+# the platforms whose file templates print the path of a constrained internal net (the `hierarchy` template filter);
+# the Gowin templates that do (`.sdc`) belong to the vendor toolchain, which needs Yosys for `emit_verilog`
+NET_CONSTRAINT_KINDS = ("ice40", "ecp5", "nexus", "tmpl")
+CLOCK_HZ = [1e6, 12.5e6, 25e6, 33.333e6, 48e6, 100e6, 133.25e6]
+
+
 def platform_design(seed):
-    from amaranth.hdl import Elaboratable, Module, Signal, ClockDomain
+    from amaranth.hdl import Elaboratable, Module, Signal, ClockDomain, Period
     rng = random.Random(seed)
     n_leds = rng.randint(0, 2)
     use_btn = rng.random() < 0.5
     use_bus = rng.random() < 0.5
     extra = rng.sample(["fast", "pix", "aux"], rng.randint(0, 2))
     width = rng.randint(2, 9)
+    # clock constraints on internal nets (drawn after the older features, which stay what they were for a seed):
+    # per further domain its clock is taken from the counter (as before), from a constrained net of the top module,
+    # or from a clock generator submodule (named or anonymous, up to two wrappers deep) that constrains its own output
+    def cc():
+        return {"hz": rng.choice(CLOCK_HZ), "how": rng.choice(["period", "period", "number", "frequency"]),
+                "held": rng.random() < 0.5, "twice": rng.random() < 0.2}
+    dom_clk = {}
+    for d in extra:
+        c = cc()
+        c["mode"] = rng.choice(["plain", "net", "net", "gen", "gen", "gen"])
+        c["name"] = rng.choice([f"clk_{d}", f"clk_{d}", "gclk"])
+        c["named"] = rng.random() < 0.6
+        c["wrap"] = [rng.random() < 0.6 for _ in range(rng.choice([0, 0, 1, 2]))]     # wrappers: named / anonymous
+        dom_clk[d] = c
+    strobe = dict(cc(), name=rng.choice(["stb", "gclk"])) if rng.random() < 0.75 else None
+    unused = dict(cc(), name="spare") if rng.random() < 0.3 else None
+
+    def constrain(platform, sig, c):
+        for _ in range(2 if c["twice"] else 1):
+            if c["how"] == "period":
+                platform.add_clock_constraint(sig, period=Period(Hz=c["hz"]))
+            elif c["how"] == "number":
+                platform.add_clock_constraint(sig, c["hz"])
+            else:
+                platform.add_clock_constraint(sig, frequency=c["hz"])
+
+    class ClkGen(Elaboratable):
+        """toggles `out` in the system clock domain and constrains it from inside its own elaborate()"""
+        def __init__(self, out, c):
+            self.out, self.c = out, c
+
+        def elaborate(self, platform):
+            m = Module()
+            m.d.sync += self.out.eq(~self.out)
+            constrain(platform, self.out, self.c)
+            return m
+
+    class Wrap(Elaboratable):
+        def __init__(self, inner, name):
+            self.inner, self.name = inner, name
+
+        def elaborate(self, platform):
+            m = Module()
+            if self.name is None:
+                m.submodules += self.inner
+            else:
+                m.submodules[self.name] = self.inner
+            return m
 
     class Top(Elaboratable):
+        def __init__(self):
+            # constrained signals that live as long as the design object; the others are made anew by every elaborate()
+            self.held = {k: Signal(name=c["name"]) for k, c in list(dom_clk.items()) + [("/stb", strobe), ("/spare", unused)]
+                         if c is not None and c["held"] and c.get("mode") != "plain"}
+
+        def sig(self, k, c):
+            return self.held[k] if k in self.held else Signal(name=c["name"])
+
         def elaborate(self, platform):
             m = Module()
             ctr = Signal(width)
@@ -2082,14 +2212,43 @@ def platform_design(seed):
             if use_bus:
                 bus = platform.request("bus", 0)
                 m.d.comb += [bus.d.o.eq(ctr[:3]), bus.d.oe.eq(ctr[0]), bus.ck.o.eq(ctr[1])]
-            for d in extra:            # further domains, declared and clocked from the counter
+            for d in extra:            # further domains, declared here and clocked from the counter / a constrained net
+                c = dom_clk[d]
                 cd = ClockDomain(d, reset_less=True)
                 m.domains += cd
-                m.d.comb += cd.clk.eq(ctr[0])
+                if c["mode"] == "plain":
+                    m.d.comb += cd.clk.eq(ctr[0])
+                elif c["mode"] == "net":
+                    s = self.sig(d, c)
+                    m.d.comb += [s.eq(ctr[0]), cd.clk.eq(s)]
+                    constrain(platform, s, c)
+                else:
+                    s = self.sig(d, c)
+                    sub = ClkGen(s, c)
+                    for j, named in enumerate(c["wrap"]):
+                        sub = Wrap(sub, f"w{j}" if named else None)
+                    if c["named"]:
+                        m.submodules[f"gen_{d}"] = sub
+                    else:
+                        m.submodules += sub
+                    m.d.comb += cd.clk.eq(s)
                 t = Signal(name=f"t_{d}")
                 m.d[d] += t.eq(~t)
+            if strobe is not None:
+                s = self.sig("/stb", strobe)
+                m.d.sync += s.eq(~s)
+                constrain(platform, s, strobe)
+            if unused is not None:     # never used in the design: the platform leaves the constraint out
+                constrain(platform, self.sig("/spare", unused), unused)
             return m
-    return Top()
+    top = Top()
+    used = [c for c in dom_clk.values() if c["mode"] != "plain"] + ([strobe] if strobe else [])
+    top.c09_meta = {"net_constraints": len(used), "unused": int(unused is not None),
+                    "names": sorted({c["name"] for c in used}),
+                    "lifetime": sorted("held by the design object" if c["held"] else "made in elaborate()" for c in used),
+                    "depth": sorted((1 + len(c["wrap"])) if c.get("mode") == "gen" else 0 for c in used),
+                    "how": sorted(c["how"] for c in used), "twice": sum(1 for c in used if c["twice"])}
+    return top
 
 
 def plan_view(plan):
@@ -2146,37 +2305,89 @@ def extract_real(plan):
         shutil.rmtree(scratch, ignore_errors=True)
 
 
+# every plan of one case is prepared in one interpreter, each on a NEW platform object (a platform prepares once):
+# (variant, which design object).  Designs are built from the seed; build 0 is prepared three times, build 1 twice.
+PREPARE_VARIANTS = (("first", 0), ("design rebuilt", 1), ("same design object", 0), ("design rebuilt again", 2),
+                    ("design object of the 2nd build again", 1), ("same design object, 3rd time", 0))
+
+
+def _first_file_diff(a, b):
+    for (n1, c1), (n2, c2) in zip(a.files.items(), b.files.items()):
+        if n1 != n2 or c1 != c2:
+            x = c1 if isinstance(c1, str) else c1.decode("latin-1")
+            y = c2 if isinstance(c2, str) else c2.decode("latin-1")
+            dl = next((i for i, (p, r) in enumerate(zip(x.splitlines(), y.splitlines())) if p != r), None)
+            return [n1, n2, dl, x.splitlines()[dl][:200] if dl is not None else None,
+                    y.splitlines()[dl][:200] if dl is not None else None]
+    return [sorted(set(a.files) ^ set(b.files))[:4], None, None, None, None]
+
+
 def platform_case_real(args):
-    """(runs in a worker) prepare the same design twice on one platform"""
-    kind, seed = args
+    """(runs in a worker) prepare one abstract design several times on one kind of platform: a new platform object
+    every time, the design rebuilt from its seed (new Signal objects) or the same design object again"""
+    kind, seed = args[:2]
+    n_prepare = args[2] if len(args) > 2 else 2
     import warnings
     warnings.simplefilter("ignore")
     out = {"kind": kind, "seed": seed}
     try:
+        builds = {}
         plans = []
-        for _ in range(2):
-            plans.append(make_platform(kind).build(platform_design(seed), do_build=False))
-        a, b = plans
+        out["variants"] = []
+        out["again_errors"] = []
+        for variant, which in PREPARE_VARIANTS[:n_prepare]:
+            if which not in builds:
+                builds[which] = platform_design(seed)
+            out["variants"].append(variant)
+            if not plans:
+                plans.append((variant, make_platform(kind).build(builds[which], do_build=False)))
+                continue
+            try:
+                plans.append((variant, make_platform(kind).build(builds[which], do_build=False)))
+            except Exception as e:  # noqa: BLE001
+                import traceback
+                out["again_errors"].append([variant, len(out["variants"]), common.errkind(e), str(e)[:300],
+                                            traceback.format_exc()[-1500:]])
+        a = plans[0][1]
+        b = plans[1][1] if len(plans) > 1 else a
+        out["meta"] = builds[0].c09_meta
         out["script"] = a.script
         out["files"] = plan_view(a)
         out["files_sha"] = {n: hashlib.sha256(bytes.fromhex(h)).hexdigest() for n, h in out["files"]}
         out["order"] = list(a.files)
-        out["archive_sha"] = hashlib.sha256(archive_bytes(a)).hexdigest()
-        out["same_files"] = list(a.files.items()) == list(b.files.items())
-        if not out["same_files"]:
-            for (n1, c1), (n2, c2) in zip(a.files.items(), b.files.items()):
-                if n1 != n2 or c1 != c2:
-                    x = c1 if isinstance(c1, str) else c1.decode("latin-1")
-                    y = c2 if isinstance(c2, str) else c2.decode("latin-1")
-                    dl = next((i for i, (p, r) in enumerate(zip(x.splitlines(), y.splitlines())) if p != r), None)
-                    out["first_diff"] = [n1, n2, dl, x.splitlines()[dl][:200] if dl is not None else None,
-                                         y.splitlines()[dl][:200] if dl is not None else None]
-                    break
+        z1, z2 = archive_bytes(a), archive_bytes(a)
+        out["archive_sha"] = hashlib.sha256(z1).hexdigest()
+        out["same_files"] = True
+        out["digests"] = [[plans[0][0], a.digest().hex()]]
+        out["script_same"] = True
+        arch_all = True
+        for variant, p in plans[1:]:
+            if list(a.files.items()) != list(p.files.items()) and out["same_files"]:
+                out["same_files"] = False
+                out["first_diff"] = _first_file_diff(a, p)
+                out["first_diff_variant"] = variant
+            if p.script != a.script:
+                out["script_same"] = False
+            out["digests"].append([variant, p.digest().hex()])
+            if archive_bytes(p) != z1:
+                arch_all = False
+                out.setdefault("archive_diff_variant", variant)
         out["digest"] = [a.digest().hex(), b.digest().hex(), a.digest(size=16).hex()]
-        z1, z2, z3 = archive_bytes(a), archive_bytes(a), archive_bytes(b)
-        out["archive_same"] = [z1 == z2, z1 == z3]
+        out["archive_same"] = [z1 == z2, arch_all]
         out["archive"] = read_archive(z1)
         out["extract"] = extract_real(a)
+        if len(plans) > 1:
+            out["extract_last_same"] = extract_real(plans[-1][1]) == out["extract"]
+        # how many lines of the constraint files name a constrained internal net (input distribution, not judged)
+        names = out["meta"]["names"]
+        pat = re.compile(r"(?<![A-Za-z0-9_])(" + "|".join(re.escape(n) for n in names) + r")(?![A-Za-z0-9_])") if names else None
+        rendered = 0
+        for n, c in a.files.items():
+            if pat is None or n.endswith((".il", ".v", ".ys", ".sh", ".bat", ".json")):
+                continue
+            text = c if isinstance(c, str) else c.decode("latin-1")
+            rendered += sum(1 for line in text.splitlines() if pat.search(line))
+        out["rendered"] = rendered
     except Exception as e:  # noqa: BLE001
         import traceback
         out["error"] = [common.errkind(e), str(e)[:300], traceback.format_exc()[-1500:]]
@@ -2318,10 +2529,15 @@ def judge_plan(chk, tag, base, script, real, m, digests):
     return ok
 
 
-def stream_plan(chk, n_platform, n_synth, hashseeds=()):
+def stream_plan(chk, n_platform, n_synth, hashseeds=(), n_prepare=4):
     rng = chk.rng
     pjobs = [(kind, rng.getrandbits(32)) for kind in ("ice40", "ecp5", "gowin") for _ in range(n_platform)]
     synth = [gen_plan(rng) for _ in range(n_synth)]
+    # the further platforms prepare the designs drawn above (nothing more is drawn from chk.rng here, so the streams
+    # that follow see the random sequence they saw before these platforms existed)
+    drawn = {k: [s for kk, s in pjobs if kk == k] for k in ("ice40", "ecp5", "gowin")}
+    pjobs += [("nexus", s) for s in drawn["gowin"] + drawn["ice40"]] + [("tmpl", s) for s in drawn["ice40"] + drawn["ecp5"]]
+    pjobs = [(kind, s, n_prepare) for kind, s in pjobs]
     with ProcessPoolExecutor(max_workers=min(16, os.cpu_count() or 4)) as ex:
         presults = list(ex.map(platform_case_real, pjobs, chunksize=1))
         sresults = list(ex.map(plan_case_real, synth, chunksize=8))
@@ -2332,28 +2548,62 @@ def stream_plan(chk, n_platform, n_synth, hashseeds=()):
         reqs.append(ser_plan(r["plan"]["script"], [(c[0], c[1]) for c in r["plan"]["calls"]]))
     resps = [json.loads(x) for x in chk.driver.ask(reqs)]
     n_ok = 0
+    n_prepared = 0
+    n_net = 0
     for r, m in zip(presults, resps[:len(presults)]):
-        chk.count(1)
-        base = {"stream": "plan-platform", "platform": r["kind"], "design_seed": r["seed"]}
+        chk.count(max(1, len(r.get("variants", []))))
+        base = {"stream": "plan-platform", "platform": r["kind"], "design_seed": r["seed"], "prepares": r.get("variants")}
         if "error" in r:
             report(chk, f"platform.build(do_build=False) on {r['kind']} raised {r['error'][0]}: {r['error'][1]}",
                    dict(base, kind="raises", error=r["error"], classes=[]))
             continue
         chk.distinct(("plan-platform", r["kind"], r["seed"]), True)
         chk.hist("plan: platform files", len(r["files"]))
-        if not r["same_files"]:
-            report(chk, f"preparing the same design twice on {r['kind']} gives different files: {r.get('first_diff')}",
-                   dict(base, kind="prepare-twice", first_diff=r.get("first_diff"), classes=[]))
+        meta = r["meta"]
+        n_prepared += len(r["variants"])
+        for v in r["variants"]:
+            chk.hist("plan: prepare() calls by variant (each on a new platform object)", v)
+        chk.hist("plan: clock constraints on internal nets per design", meta["net_constraints"])
+        chk.hist("plan: clock constraints on signals the design never uses", meta["unused"])
+        for x in meta["lifetime"]:
+            chk.hist("plan: constrained signal is", x)
+        for x in meta["depth"]:
+            chk.hist("plan: submodules around a constrained net", x)
+        for x in meta["how"]:
+            chk.hist("plan: add_clock_constraint argument", x)
+        chk.hist("plan: constraint-file lines naming a constrained net", f"{r['kind']}: {r['rendered']}")
+        if meta["net_constraints"] and r["rendered"]:
+            n_net += 1
+        bad = False
+        for variant, nth, ek, msg, tb in r["again_errors"]:
+            report(chk, f"preparing the same design again on {r['kind']} raised {ek}: {msg} (prepare() #{nth} of the case, "
+                        f"'{variant}', on a new platform object; the first prepare() gave a plan)",
+                   dict(base, kind="prepare-again-raises", variant=variant, nth=nth, error=[ek, msg, tb], meta=meta, classes=[]))
+            bad = True
+            break
+        if bad:
             continue
-        if r["digest"][0] != r["digest"][1]:
-            report(chk, f"preparing the same design twice on {r['kind']} gives different digests", dict(base, kind="digest-twice", classes=[]))
+        if not r["same_files"]:
+            report(chk, f"preparing the same design twice on {r['kind']} gives different files "
+                        f"('{r.get('first_diff_variant')}' against the first): {r.get('first_diff')}",
+                   dict(base, kind="prepare-twice", first_diff=r.get("first_diff"), variant=r.get("first_diff_variant"), classes=[]))
+            continue
+        if len({d for _v, d in r["digests"]}) != 1 or r["digest"][0] != r["digest"][1] or not r["script_same"]:
+            report(chk, f"preparing the same design twice on {r['kind']} gives different digests",
+                   dict(base, kind="digest-twice", digests=[[v, d[:16]] for v, d in r["digests"]], classes=[]))
             continue
         if r["archive_same"] != [True, True]:
-            report(chk, f"archiving the same plan twice on {r['kind']} gives different bytes", dict(base, kind="archive-twice", classes=[]))
+            report(chk, f"archiving the same plan twice on {r['kind']} gives different bytes",
+                   dict(base, kind="archive-twice", variant=r.get("archive_diff_variant"), classes=[]))
             continue
-        if judge_plan(chk, "platform plan", base, r["script"], r, m, [("size=64", r["digest"][0])]):
+        if not r.get("extract_last_same", True):
+            report(chk, f"extracting the plan of the last prepare() on {r['kind']} writes another tree than extracting the first",
+                   dict(base, kind="extract-twice", classes=[]))
+            continue
+        if judge_plan(chk, "platform plan", base, r["script"], r, m, [(f"size=64, {v}", d) for v, d in r["digests"]]):
             n_ok += 1
-            chk.sample({"stream": "plan", "platform": r["kind"], "files": [f[0] for f in r["files"]], "digest": r["digest"][0][:16]}, limit=6)
+            chk.sample({"stream": "plan", "platform": r["kind"], "files": [f[0] for f in r["files"]], "digest": r["digest"][0][:16],
+                        "prepares": r["variants"], "net_constraints": meta["net_constraints"], "rendered": r["rendered"]}, limit=6)
     for r, m in zip(sresults, resps[len(presults):]):
         chk.count(1)
         p = r["plan"]
@@ -2385,7 +2635,7 @@ def stream_plan(chk, n_platform, n_synth, hashseeds=()):
         if judge_plan(chk, "synthetic plan", base, p["script"], r, m, [("call order", r["digest"]), ("permuted", r["digest_perm"])]):
             n_ok += 1
     # the same platform plans prepared in fresh interpreters under different hash seeds
-    pseeds = sorted({seed for _k, seed in pjobs})
+    pseeds = sorted({job[1] for job in pjobs})
     n_cross = 0
     if hashseeds:
         with ThreadPoolExecutor(max_workers=min(16, os.cpu_count() or 4)) as tex:
@@ -2403,10 +2653,21 @@ def stream_plan(chk, n_platform, n_synth, hashseeds=()):
                     if "error" not in first[1] or first[1]["error"] != r["error"]:
                         report(chk, f"platform.build on {r['kind']} fails differently under PYTHONHASHSEED={h} and {first[0]}",
                                dict(base, kind="plan-hashseed", a=r.get("error"), b=first[1].get("error"), classes=[]))
+                    elif key in ref and first[0] == h:
+                        # the child prepares one plan after the other (new platform objects, designs built anew): the
+                        # same design gave a plan in the harness' worker and must give one here
+                        report(chk, f"platform.build on {r['kind']} raised {r['error']} in a fresh interpreter "
+                                    f"(PYTHONHASHSEED={h}) that prepares the plans of {len(pseeds)} designs x {len(PLATFORM_KINDS)} "
+                                    f"platforms one after the other; the same design gave a plan in the harness' interpreter",
+                               dict(base, kind="plan-sequence-raises", error=r["error"], classes=[]))
                     continue
                 first = seen.setdefault(key, (h, r))
                 other = first[1]
                 mine = ref.get(key)
+                if "error" in other:
+                    report(chk, f"platform.build on {r['kind']} gives a plan under PYTHONHASHSEED={h} and fails under {first[0]}",
+                           dict(base, kind="plan-hashseed", a=None, b=other.get("error"), classes=[]))
+                    continue
                 for who, o2, h2 in (("another interpreter", other, first[0]),
                                     ("this interpreter", {"digest": mine["digest"][0], "files": mine["files_sha"],
                                                           "order": mine["order"], "archive": mine["archive_sha"]}
@@ -2429,7 +2690,9 @@ def stream_plan(chk, n_platform, n_synth, hashseeds=()):
                                       f"PYTHONHASHSEED={h} than under {h2}", dict(base, a=r["order"], b=o2["order"]))
                         break
     chk.extra["plan"] = {"platform_cases": len(pjobs), "synthetic": n_synth, "agree": n_ok,
-                         "platform_plans_in_fresh_interpreters": n_cross}
+                         "platform_plans_in_fresh_interpreters": n_cross, "platform_plans_prepared": n_prepared,
+                         "prepares_per_case": n_prepare,
+                         "cases_whose_constraint_files_name_an_internal_net": n_net}
 
 
 def stream_sort(chk, n):
@@ -2483,7 +2746,7 @@ def run(chk):
     stage("sim")
     stream_poke(chk, n_poke)
     stage("poke")
-    stream_plan(chk, n_platform, n_synth, hashseeds if quick else hashseeds[:12])
+    stream_plan(chk, n_platform, n_synth, hashseeds if quick else hashseeds[:12], n_prepare=4 if quick else len(PREPARE_VARIANTS))
     stage("plan")
     # drawn last, so that the streams above see the same random sequence as before this stream existed
     stream_refrag(chk, n_refrag, hashseeds[:2] if quick else hashseeds[:6], 24 if quick else 100)
@@ -2509,8 +2772,10 @@ def run(chk):
         "callbacks and the domain view of the diff designs; distinct = (tree, callback), non-trivial = at least two missing "
         "domains. sim: random scenarios (design, clocks, testbench programs, stop mode); distinct = scenario, non-trivial = at "
         "least four of the eight state components differ from their reset value when reset() is called. poke: random "
-        "primitive-operation scripts on a real engine; non-trivial = six or more operations. plan: three platforms x designs, "
-        "and synthetic plans; non-trivial = two or more files. sort: random name lists.")
+        "primitive-operation scripts on a real engine; non-trivial = six or more operations. plan: five platforms x designs "
+        "(with clock constraints on internal nets added in elaborate()), each prepared several times in one interpreter on "
+        "new platform objects (design rebuilt / same design object), and synthetic plans; distinct = (platform, design "
+        "seed), non-trivial = two or more files. sort: random name lists.")
     chk.assumptions += [
         "the cross-interpreter byte-identity of RTLIL is explored (subprocess differential over the listed hash seeds), not proved",
         "the model of the engine state leaves out the slots' waker lists (stale trigger wakers survive reset(); they are inert) "
@@ -2556,6 +2821,28 @@ def replay(chk, path):
         if not chk.violations and not chk.unshown:
             print(f"replay: scenario verdict {v} - not reproduced")
             return common.EXIT_OK
+        return common.EXIT_VIOLATION
+    if stream == "plan-platform":
+        n = len(rep.get("prepares") or []) or len(PREPARE_VARIANTS)
+        r = platform_case_real((rep["platform"], rep["design_seed"], n))
+        problems = []
+        if "error" in r:
+            problems.append(f"the first prepare() raised {r['error'][0]}: {r['error'][1]}")
+        else:
+            problems += [f"prepare() #{nth} ('{v}') raised {ek}: {msg}" for v, nth, ek, msg, _tb in r["again_errors"]]
+            if not r["same_files"]:
+                problems.append(f"'{r.get('first_diff_variant')}' gives other files than the first prepare(): {r.get('first_diff')}")
+            if len({d for _v, d in r["digests"]}) != 1 or not r["script_same"]:
+                problems.append("the digests / scripts of the plans differ")
+            if r["archive_same"] != [True, True]:
+                problems.append("the archives differ")
+        if not problems:
+            print(f"replay: {n} plans of design seed {rep['design_seed']} on {rep['platform']} are equal - not reproduced "
+                  f"(comparison with the model is not part of the replay)")
+            return common.EXIT_OK
+        print(f"VIOLATION property=C09 replay={path}")
+        for p in problems[:4]:
+            print(f"  {p}")
         return common.EXIT_VIOLATION
     print(f"replay of stream {stream!r} is not supported; the replay file contains the complete input")
     return common.EXIT_INFRA
